@@ -270,3 +270,19 @@ package rosmar
 //@   ensures [C16:queue.close.closed]   listnil(q.list)
 //@   ensures [C16:queue.close.wakes]    !old(listnil(q.list)) ==> count("broadcast") == 1
 //@   ensures [C20:queue.close.unlocked] any: nolocks()
+//@
+//@ fn (*Collection).enqueueBackfillEvents
+//@   requires c.id >= 1
+//@   requires forall o: DocId :: DocInv(docAt(o)) && (docAt(o).present ==> docAt(o).exp == 0 || docAt(o).exp > 2592000)
+//@   requires q != nil
+//@   requires !listnil(q.list)
+//@   ensures [C09,C11:backfill.selects]  result == nil ==> cursorCount() == 1 && (forall o: DocId :: cursorWhere(0, o) <==> (docAt(o).present && o.coll == c.id && docAt(o).cas >= startCas))
+//@   ensures [C09:backfill.ordered]      result == nil ==> cursorOrderBy(0, "cas")
+//@   ensures [C09,C11:backfill.frame]    db == old(db) && stmtsScoped(c.id)
+//@   loop 1 invariant [C09:backfill.loop] true
+//@   loop 1 body [C09:backfill.one-event-per-row] iter("list.pushfront") == 1 && iter("rows.scan") == 1
+//@   loop 1 body [C05,C09:backfill.opcode]  lastpushed().opcode == (if isnull(cursorRow().value) then 3 else 2)
+//@   loop 1 body [C09,C17:backfill.meta]    lastpushed().cas == cursorRow().cas && lastpushed().revno == cursorRow().rev && lastpushed().key == bytesof(cursorId().key) && lastpushed().collid == c.id - 1
+//@   loop 1 body [C09,C14:backfill.expiry]  lastpushed().expiry == cursorRow().exp
+//@   loop 1 body [C09:backfill.datatype]    (bit(lastpushed().datatype, 1) <==> cursorRow().isJSON != 0) && (!keysOnly ==> (bit(lastpushed().datatype, 4) <==> len(cursorRow().xattrs) > 0))
+//@   loop 1 body [C09:backfill.body]        !keysOnly && len(cursorRow().xattrs) == 0 ==> lastpushed().value == cursorRow().value
